@@ -303,6 +303,9 @@ pub fn c17_dispatcher(_m: &mut Mon, ctx: &StepCtx, stats: &mut Stats, out: &mut 
                         let diff = if after18 > ideal18 { after18 - ideal18 } else { ideal18 - after18 };
                         if diff > tol {
                             viol(out, "C17", "stsei_share_follows_bonded_ratio", ctx.idx, "dispatcher.SwapToRewardDenom:share", format!("holds {}{} + {}{} at {} {}/{}; bonded stSei {} bSei {}; offers {}{}: stSei side {}e-18 vs ideal {}e-18", xs, sd, xb, bd, dec(r), bd, sd, bs, bb, offer_amt, offer_denom, after18, ideal18));
+                            // the same swap is the step of UpdateGlobalIndex that decides how much of the
+                            // withdrawn rewards each pool receives (only the hub may request it)
+                            viol(out, "C19", "rewards_split_between_pools_by_bonded_stake", ctx.idx, "hub.UpdateGlobalIndex:split", format!("update splits {}{} + {}{} between stSei bonded {} and bSei bonded {} at {} {}/{}: stSei pool keeps {}e-18 {} instead of {}e-18", xs, sd, xb, bd, bs, bb, dec(r), bd, sd, after18, sd, ideal18));
                         }
                         if xs == 0 || xb == 0 {
                             stats.probe("c17_one_sided_rewards");
